@@ -20,6 +20,9 @@
                      U <e> <e>     union
                      I <e> <e>     intersection
                      ?<k> <e> <e>  if input k ≠ 0 then first else second
+                     ? <c> <e> c0  value-controlled gate: if bit 0 of the value of <c> is set
+                                   then <e> (evaluated only then) else the empty set; the third
+                                   operand must be the token `c0`
                      e.g.  `node 0 fix U c1 I n1 ?2 i0 n0`
          (re)defining a node starts a new revision (all memos and poison dropped).
     input <i> <v>            set input i (< 16) to v (< 256); new revision      -> `ok`
@@ -32,7 +35,8 @@
                                   | `panic:out-of-fuel`             model fuel (proved unreachable)
     lfp <i>                  reference: least fixpoint of the equations at node i -> `<value>`
     fbref <i>                reference for fallback programs (fallback iff on a cycle) -> `<value>`
-    oncycle <i>              is node i on a cycle of the input-determined call graph -> `0|1`
+    oncycle <i>              is node i on a cycle of the call graph (inputs decide `?<k>`, the
+                             values of `fbref` decide the gates)                 -> `0|1`
     iters                    number of `WillIterateCycle` steps of the last `get`
                              (0 if it panicked or there was none)                -> `<k>`
   anything else (unknown op, missing `prog`, index out of range, trailing tokens) -> `bad-op`.
@@ -80,6 +84,12 @@ def parseExpr (n : Nat) : Nat → List String → Option (Expr × List String)
       some (mk a b, r2)
     if t = "U" then bin .union
     else if t = "I" then bin .inter
+    else if t = "?" then do
+      let (c, r1) ← parseExpr n fuel ts
+      let (a, r2) ← parseExpr n fuel r1
+      match r2 with
+      | "c0" :: r3 => some (.gate c a, r3)
+      | _ => none
     else match tagged t with
       | some ('c', k) => if k < 256 then some (.const k, ts) else none
       | some ('i', k) => if k < 16 then some (.input k, ts) else none
@@ -134,7 +144,8 @@ def handle (st : DSt) (line : String) : Option (DSt × String) :=
     let P ← st.prog
     let i ← nat? i
     if i ≥ P.n then none
-    some (st, if onCycleL P (envOf st.inputs) i then "1" else "0")
+    let env := envOf st.inputs
+    some (st, if onCycleL P env (fun j => (fbReferenceL P env).getD j 0) i then "1" else "0")
   | ["iters"] => do
     let _ ← st.prog
     some (st, toString st.lastIters)
